@@ -1,9 +1,26 @@
-"""TEMPORARY registry (gate/exit unit only): runs the C10.exit.* obligations until the real obligations/c10.py exists."""
+"""C10 - stored and embedded modules run like the in-memory module (DESIGN 5/C10)."""
 import os, sys
 sys.path.insert(0, os.path.dirname(os.path.abspath(__file__)))
 import c10_exit
-META = {"level": "proof", "trusted_base": ["contracts/gate_contracts.h"], "assumptions": [], "undecided_part": "only C10.exit.*"}
+
+META = {
+    "level": "proof",
+    "trusted_base": ["contracts/gate_contracts.h (exit-status spec read off nano_virt --run)"] ,
+    "assumptions": list(c10_exit.EXIT_META.get("assumptions", [])) + [
+        "C10.rt / C10.idem are BOUNDED stand-ins on the real nvm_serialize -> nvm_deserialize (nothing replaced, real CRC): module shape <= 1 string of <= 2 bytes, <= 3 code bytes, <= 1 function, <= 1 debug entry, <= 1 import with <= 1 parameter; never counted as proved",
+        "unbounded-size round trip is NOT decided; byte equality of the blob embedded by the wrapper generator is NOT decided",
+    ],
+    "undecided_part": "round trip for modules of arbitrary size; output equality of the three ways of running (all print through the same TRAP_PRINT branch: structural, no obligation); wrapper blob embedding",
+}
+RT = "harness/nvm_rt_h.c"
+SHAPE = "B(module shape: <=1 string(<=2 bytes), <=3 code bytes, <=1 function, <=1 debug entry, <=1 import(<=1 param))"
 
 
 def obligations(repo):
-    return c10_exit.exit_obligations("C10", repo)
+    obs = c10_exit.exit_obligations("C10", repo)
+    for e, oid in (("h_rt", "C10.rt"), ("h_idem", "C10.idem")):
+        obs.append(dict(id=oid, prop="C10", harness=RT, entry=e, include_repo=["src", "src/nanoisa"],
+                        unwindset=["crc32_init.0:257", "crc32_init.1:257", "nvm_crc32.0:160"], unwind=8, object_bits=10,
+                        strength=SHAPE, functions=["nvm_serialize", "nvm_deserialize", "nvm_crc32"], timeout=900,
+                        must_have=[r"C10\.", r"COVER"], min_checks=100))
+    return obs
